@@ -116,6 +116,72 @@ def judge_history_frame(case):
     return None
 
 
+def gen_list_index_frame(rng):
+    """a mapping with ONE integer key merged into a list: only the position it names (negative keys count from the end) may change, however
+    the key is spelled and however deep the documents are wrapped"""
+    n = rng.randint(1, 4)
+    elems = [rng.choice(['%d' % (10 * (j + 1)), '{kind: e%d, size: %d}' % (j, j)]) for j in range(n)]
+    i = rng.randint(-n, n - 1)
+    new = rng.choice(['99', 'x', '!del {kind: fc}', '[7]'])
+    keys = rng.sample(['w', 'outer', 'l'], rng.randint(0, 2))
+    return dict(listidx=True, elems=elems, index=i, new=new, keys=keys)
+
+
+def judge_list_index_frame(case):
+    n, i = len(case['elems']), case['index']
+    def wrap(t):
+        for k in reversed(case['keys']):
+            t = '{%s: %s}' % (k, t)
+        return t
+    def unwrap(r):
+        for k in case['keys']:
+            r = r[k]
+        return r
+    older = wrap('{l: [' + ', '.join(case['elems']) + '], name: base}')
+    k0, r0 = oracles.build_plain([older])
+    got = {}
+    for spelled in (i, i % n):
+        k1, r1 = oracles.build_plain([older, wrap('{l: {%d: %s}}' % (spelled, case['new']))])
+        if k0 != 'ok' or k1 != 'ok':
+            return dict(case=case, reason='unexpected failure', older=k0, merged=k1, message=repr(r1)[:200])
+        before, after = unwrap(r0)['l'], unwrap(r1)['l']
+        if len(after) != n or unwrap(r1).get('name') != 'base':
+            return dict(case=case, reason='a mapping merged into a list through one index changed the length of the list or a sibling key', before=repr(before), after=repr(after))
+        for j in range(n):
+            if j != i % n and base.typed(after[j]) != base.typed(before[j]):
+                return dict(case=case, spelled=spelled, reason='a list position not mentioned by the newer document changed', position=j, before=repr(before), after=repr(after))
+        if base.typed(after[i % n]) == base.typed(before[i % n]):
+            return dict(case=case, spelled=spelled, reason='the list position named by the newer document did not change', before=repr(before), after=repr(after))
+        got[spelled] = after
+    if base.typed(got[i]) != base.typed(got[i % n]):
+        return dict(case=case, reason='the merged list depends on how the index is spelled (negative / non-negative)', negative=repr(got[i]), positive=repr(got[i % n]))
+    return None
+
+
+def del_sibling_cases():
+    """a deleting newer mapping met by an older mapping that holds one protected (higher-priority) entry among plain ones: what happens to
+    a plain entry must not depend on WHERE the protected sibling stands among the keys"""
+    import itertools
+    out = []
+    for sib in ('1', '!weak 1', '!force 1', '!force {k: 1}', '{k: !force 1}'):
+        for order in itertools.permutations([('x', sib), ('y', '2'), ('w', '{m: 4, n: [5, 6]}')]):
+            out.append(dict(delsib=True, older='{a: {' + ', '.join(f'{k}: {v}' for k, v in order) + '}}', newer='{a: !del {z: 3}}', wrapped=(len(out) % 3 == 0)))
+    return out
+
+
+def judge_del_sibling(case):
+    o, n = case['older'], case['newer']
+    if case.get('wrapped'):
+        o, n = '{t: %s}' % o, '{t: %s}' % n
+    k, r = oracles.build_plain([o, n])
+    if k != 'ok':
+        return dict(case=case, reason='unexpected failure', got=k, message=repr(r)[:200])
+    a = (r['t'] if case.get('wrapped') else r)['a']
+    if a.get('z') != 3 or 'y' in a or 'w' in a:
+        return dict(case=case, reason="below a '!del' mapping a plain entry's fate depends on a sibling: the plain entries y / w must be gone and z must be there", got=repr(a))
+    return None
+
+
 SPELL = {'a': ('!del', "!metadata{{'delete': True}}", '{x: 5}'), 'b': ('!merge', "!metadata{{'delete': False}}", '{z: 6}'),
          'c': ('!del', "!metadata{{'delete': True}}", '{x: 7}'), 'd': ('!force', "!metadata{{'priority': 1}}", '{x: 8}'), 'e': ('!weak', "!metadata{{'priority': -1}}", '{y: 9}')}
 
@@ -181,6 +247,9 @@ def run(rep, tier, rng):
     base.run_oracle(rep, 'C05', 'sibling independence', sibs, judge_sibling, show=show)
     base.run_oracle(rep, 'C05', 'sibling independence of the tag SPELLING (up to five {{..}} blocks in one source)', spelling_cases(), judge_spelling)
     base.run_oracle(rep, 'C05', 'frame: unmentioned paths unchanged', frames, judge_frame, show=show)
+    base.run_oracle(rep, 'C05', "sibling independence under a '!del' mapping: a protected sibling at every position among the keys", del_sibling_cases(), judge_del_sibling)
+    base.run_oracle(rep, 'C05', 'frame on lists: a mapping with one integer key (negative keys included) changes exactly the position it names',
+                    [gen_list_index_frame(rng) for _ in range(60 if tier == 'quick' else 1000)], judge_list_index_frame)
     base.run_oracle(rep, 'C05', 'frame across a history: a stage that does not mention a path does not influence later merges at it',
                     [gen_history_frame(rng) for _ in range(80 if tier == 'quick' else 1500)], judge_history_frame)
 
@@ -192,6 +261,14 @@ def replay(data):
         x = r['input']
         if x.get('spelling') or (isinstance(x.get('case'), dict) and x['case'].get('spelling')):
             f = judge_spelling(x.get('case', x))
+            print('replay:', 'property FAILS' if f else 'property holds', f or '')
+            return 1 if f else 0
+        if x.get('delsib') or (isinstance(x.get('case'), dict) and x['case'].get('delsib')):
+            f = judge_del_sibling(x.get('case', x))
+            print('replay:', 'property FAILS' if f else 'property holds', f or '')
+            return 1 if f else 0
+        if x.get('listidx') or (isinstance(x.get('case'), dict) and x['case'].get('listidx')):
+            f = judge_list_index_frame(x.get('case', x))
             print('replay:', 'property FAILS' if f else 'property holds', f or '')
             return 1 if f else 0
         if x.get('frame3'):
